@@ -32,7 +32,7 @@ LEVEL_NOTE = ("virtual time; driver calls are placed at instants that never coin
 RULE = ("cases = (run scripts, limit, delay, driver script); distinct = canonical JSON; non-trivial = >=2 runs entered or "
         "an external call during a run / during the restart delay")
 REQUIRED_BUCKETS = ["outcome:ret", "outcome:exc", "outcome:base", "outcome:block", "restart-observed",
-                    "limit-exhausted", "limit:0", "limit:None", "delay:0", "delay:2", "stop-during-run",
+                    "limit-exhausted", "limit:0", "limit:None", "delay:0", "delay:2", "delay:fractional", "stop-during-run",
                     "stop-during-restart-delay", "stop-before-start", "stop-after-completion", "double-start",
                     "cancel-swallowed", "cancel-converted-to-exception", "extra-task", "service-multi-task",
                     "run-group", "restart-after-done"]
@@ -108,7 +108,7 @@ def gen(rng: Any, tier: str, i: int) -> Any:
         runs.append({"points": pts, "at": rng.randrange(pts), "outcome": o,
                      "on_cancel": rng.choice(["propagate", "propagate", "propagate", "swallow", "exc"])})
     limit = rng.choice([0, 1, 3, None])
-    delay = rng.choice([0.0, 2.0])
+    delay = rng.choice([0.0, 2.0, 2.0, 2.125, 0.125])  # incl. delays with a fractional part / below one second
     drv: list[list[Any]] = []
     t = 0.25
     if rng.random() < 0.2:
@@ -264,7 +264,7 @@ async def _drive_actor(case: dict[str, Any], log: list[Any]) -> None:
 def _judge_actor(case: dict[str, Any], log: list[Any], rec: Any) -> None:
     limit, delay = case["limit"], case["delay"]
     rec.bucket(f"limit:{limit}") if limit in (0, None) else None
-    rec.bucket(f"delay:{int(delay)}")
+    rec.bucket(f"delay:{int(delay)}" if delay == int(delay) else "delay:fractional")
     runs = [e for e in log if e["ev"] in ("enter", "exit")]
     calls = [e for e in log if e["ev"] == "call"]
     rec.count("external_calls_observed", len(calls))
